@@ -38,7 +38,7 @@ def classify(pid, d):
 
 CLASSIFIERS = {}
 
-ALL_EXTRACTORS = ["Basic", "Message", "Conversion", "Session", "Service", "SigGrammar", "Value", "Reader", "Encoding", "GenReaders", "Endpoint", "Stream", "Client", "Queues", "Auth", "Calls", "Signals", "Property", "Directory", "Mailbox"]
+ALL_EXTRACTORS = ["Basic", "Message", "Conversion", "Session", "Service", "SigGrammar", "Value", "Reader", "Encoding", "GenReaders", "Endpoint", "Stream", "Client", "Queues", "Auth", "Calls", "Signals", "Property", "Directory", "Mailbox", "IdlGrammar"]
 
 
 def lean_string_list(path, name):
@@ -360,6 +360,25 @@ PROPS = {
             "totality are the subject of C04, C07 and C08 and are only exercised here",
             "bounded time is observed (4 s deadline for the probe), not proved",
             "removal requests (terminate, unregisterService) are excluded from the hostile sequences: they remove what they name (C16, C15)",
+        ],
+        "timeout": {"quick": 900, "thorough": 3000},
+    },
+    "C18": {
+        "level": "proof",
+        "extract": ["IdlGrammar", "SigGrammar"],
+        "rule": "type texts (600, thorough 6000: nested Vec / Map / Tuple over the 15 basic keywords, declared, undeclared and "
+                "template-named references, near-keywords such as strx / int7 / anything, empty and broken texts, white "
+                "space inside) wrapped into a package with three struct declarations and parsed by idl.ParseIDL: the "
+                "parameter signature (or error / unresolved) is compared with the type parser of the model; every type "
+                "printed by SignatureIDL for the signatures C09's generator draws is parsed back likewise; 150 "
+                "(thorough 1500) generated meta-objects (1-2 interfaces; methods with named parameters, signals, "
+                "properties; nested containers, tuples, structs shared between actions, template struct names) go "
+                "through GenerateIDL and ParseIDL and must come back with the same action ids, names and signatures; "
+                "4 (thorough 40) x 400 mutated / random IDL texts in child processes must yield a package or an error",
+        "assumptions": [
+            "the line and package layers (fn / sig / prop lines, //uid: comments, struct blocks, scopes) are compared by the "
+            "harness's own round-trip oracle, not by a Lean model: the theorem covers the type layer",
+            "totality of the real parser is sampled (fuzzing in child processes); the model's parser is total by construction",
         ],
         "timeout": {"quick": 900, "thorough": 3000},
     },
